@@ -441,6 +441,8 @@ def gen_enable(rng, w, s, pid, valid):
     S = max(1, p["S"])
     need = max(1, (minval * S + rsv - 1) // rsv) if rsv > 0 else S
     amt = need + rng.choice([0, 0, 1, need, S])
+    if minval == 0 and rng.random() < 0.3:
+        amt = 0
     unlock = s["epoch"] + minep + rng.choice([0, 0, 1, 5, 100])
     c = adder or rng.choice(users)
     op = ["EnableSwap", c, pid, ltok, pid, unlock, amt]
@@ -665,7 +667,7 @@ def gen_op(rng, w, stats):
         if not w.common:
             return ["AddCommon", OWNER, rng.randint(1, NTOK)]
         if not w.enable_cfg:
-            return ["ConfigEnable", OWNER, rng.choice(w.common), 8, rng.choice([1, 1000, 100000, 10 ** 7]), rng.choice([0, 0, 10, 100])]
+            return ["ConfigEnable", OWNER, rng.choice(w.common), 8, rng.choice([0, 1, 1000, 100000, 10 ** 7]), rng.choice([0, 0, 10, 100])]
     # pairs waiting in ActiveNoSwaps for their adder, registered or not (removed ones must be refused)
     waiting = [pid for pid in pairs if pairs[pid]["state"] == 2 and w.adders.get(pid) and pid not in reg]
     if waiting and w.enable_cfg and rng.random() < 0.07:
